@@ -217,6 +217,12 @@ def inc_param_roles(g):
                 continue
             if i["op"] == "getelementptr":
                 sinks.add("addr")
+                # `end = counter + size` walked by a pointer cursor: the parameter bounds the loop through a pointer
+                # comparison
+                for u in uses.get(x, []):
+                    ui = g.insts[u]
+                    if ui["op"] in ("phi", "icmp") and ui.get("type", "").endswith("*") or ui["op"] == "icmp":
+                        work.append(u)
                 continue
             if i["op"] == "store":
                 if i["ops"][0][0] == "i" and i["ops"][0][1] in seen:
@@ -253,9 +259,30 @@ def norm_inc_args(prog, f, call, consts, block):
     return (amt,) if col is None else (col, amt)
 
 
-def counter_helper_ok(f, block):
+def counter_helper_ok(f, block, prog=None):
     """increment helper: single loop, constant trip count == block, single exit on the induction variable."""
     loops = f.loops()
+    if not loops and prog is not None and not any(i["op"] == "store" for i in f.all_insts()):
+        # forwarder: `inc128(counter, n)` = `inc(counter, 16, n)` - the shared helper is checked, and the literal
+        # handed to its extent parameter must be this cipher's block size
+        calls = [i for i in f.all_insts() if i["op"] == "call" and i["callee"][0] == "f" and prog.resolve(f.unit, i["callee"][1]) is not None
+                 and not prog.resolve(f.unit, i["callee"][1]).decl]
+        if len(calls) == 1:
+            g = prog.resolve(f.unit, calls[0]["callee"][1])
+            ops = calls[0]["ops"]
+            roles = inc_param_roles(g)
+            ext = [k for k, r in roles.items() if r == "extent"]
+
+            def strip(op):
+                while op[0] == "i" and f.insts[op[1]]["op"] in ("zext", "sext", "trunc", "bitcast"):
+                    op = f.insts[op[1]]["ops"][0]
+                return op
+            if g is not f and len(ext) == 1 and ext[0] < len(ops) and ops and strip(ops[0]) == ["a", 0]:
+                e = strip(ops[ext[0]])
+                if e[0] != "c" or int(e[1]) != block:
+                    return False, "forwards to %s with extent %s, block is %d" % (g.name, e[1] if e[0] == "c" else "?", block)
+                ok, why = counter_helper_ok(g, block, None)
+                return ok, "forwards to %s over %d bytes: %s" % (g.name, block, why)
     if not loops:
         # straight-line form (a constant-trip loop is unrolled by the specialiser): one byte store per counter byte
         from ..mem import AddrMap
@@ -300,6 +327,40 @@ def counter_helper_ok(f, block):
         return False, "loop test does not use an induction variable"
     phi = f.insts[iv[1]]
     start = step = None
+    if phi.get("type", "").endswith("*"):
+        # pointer cursor over the counter: `p = counter + extent; while (p != counter) { --p; ... }` or upwards
+        roles = inc_param_roles(f)
+        ext = [k for k, r in roles.items() if r == "extent"]
+
+        def strip(op):
+            while op[0] == "i" and f.insts[op[1]]["op"] in ("zext", "sext", "trunc", "bitcast"):
+                op = f.insts[op[1]]["ops"][0]
+            return op
+
+        def end_of(op, k):
+            i = f.insts.get(op[1]) if op[0] == "i" else None
+            if not i or i["op"] != "getelementptr":
+                return False
+            g = i["gep"]
+            return strip(g["base"]) == ["a", 0] and g["coff"] == 0 and len(g["vars"]) == 1 and g["vars"][0][1] == 1 and strip(g["vars"][0][0]) == ["a", k]
+        pstep = None
+        sv = None
+        for v, pb in zip(phi["ops"], phi["inblocks"]):
+            if pb in body:
+                bi = f.insts.get(v[1]) if v[0] == "i" else None
+                if bi and bi["op"] == "getelementptr" and strip(bi["gep"]["base"]) == ["i", phi["id"]] and not bi["gep"]["vars"]:
+                    pstep = bi["gep"]["coff"]
+            else:
+                sv = v
+        bound = c["ops"][1]
+        nst = sum(1 for bb in body for i in f.bbmap[bb]["insts"] if i["op"] == "store")
+        if len(ext) == 1 and sv is not None and pstep in (-1, 1) and nst == 1 and c["pred"] in ("ne", "ugt", "ult"):
+            k = ext[0]
+            down = pstep == -1 and end_of(sv, k) and strip(bound) == ["a", 0]
+            up = pstep == 1 and strip(sv) == ["a", 0] and end_of(bound, k)
+            if down or up:
+                return True, "a pointer cursor visits one byte per iteration over exactly the `%s` bytes the caller names (the block size at every call site), exit only on the cursor" % f.params[k]["name"]
+        return False, "pointer-cursor loop whose extent is not the helper's extent parameter"
     for v, pb in zip(phi["ops"], phi["inblocks"]):
         if pb in body:
             bi = f.insts.get(v[1]) if v[0] == "i" else None
@@ -552,7 +613,7 @@ def run_config(ctx, rep, cfg):
                           (b.lanes, b.lanes, b.lanes - 1), cfg=cn)
     for hk, blk in sorted(helpers.items()):
         hf = prog.funcs[hk]
-        ok, why = counter_helper_ok(hf, blk)
+        ok, why = counter_helper_ok(hf, blk, prog)
         if ok:
             rep.ok("C05.R6", construct(hf), fsite(hf), "counter step: " + why, cfg=cn)
         else:
